@@ -1,0 +1,20 @@
+//go:build verif
+
+// Contracts for deductive verification (comment-only; read by /verif/govc, never compiled into the product).
+
+package executable
+
+// ---------------------------------------------------------------------------------------------------------
+// C17: stopping a basic task never crashes the executor, whether the child is still running (ProcessState is nil
+// until Wait returned), already gone or never started; when there is a live child, the whole process group gets
+// SIGKILL and the final status recorded for the reaper is KILLED ("killed on request is reported as killed").
+//@ func (t *basicTaskBase) ensureBasicTaskKilled() (err error)
+//@   property C17
+//@   requires t != nil && t.Tci != nil && t.ti != nil && log != nil
+//@   safety nil
+//@   ghostvar pend int = 0
+//@   ghostvar killed int = 0
+//@   on send * : assert value == mesos.TASK_KILLED && pend == 0 && killed == 0 ; pend = pend + 1
+//@   on call syscall.Kill : assert pend == 1 && killed == 0 && arg0 == -t.taskCmd.Process.Pid && arg1 == syscall.SIGKILL ; killed = killed + 1
+//@   ensures old(t.taskCmd != nil && t.Tci.ControlMode != controlmode.HOOK && t.taskCmd.Process != nil && t.taskCmd.ProcessState == nil) ==> pend == 1 && killed == 1
+//@   ensures old(t.taskCmd == nil || t.Tci.ControlMode == controlmode.HOOK || t.taskCmd.Process == nil) ==> pend == 0 && killed == 0 && err == nil
